@@ -127,7 +127,7 @@ def run(ctx):
                     "Interval library (verified floating-point intervals, 80 bits) evaluates exp/ln/sqrt of the windowing function"]
     ctx.assumptions += ["tolerance 2^-30 relative; windowing decisions within 2^-30 of a sign change are skipped and counted (near tie)"]
     ctx.copy_props()
-    common.tie_pycore(ctx, ["Tie_expand_deltas.v", "Tie_gap.v", "Tie_gamma.v", "Tie_drho.v", "Tie_window.v"])
+    common.tie_pycore(ctx, ["Tie_expand_deltas.v", "Tie_gap.v", "Tie_gamma.v", "Tie_drho.v", "Tie_window.v", "Tie_tauint.v"])
 
     ncase = 120 if quick else 1200
     nmax = 48 if quick else 160          # exact pair sums cost O(n^2) big-number operations per lag: longer chains take tens of minutes per shard
